@@ -451,3 +451,94 @@ def leaf_pool(rng):
 
 def body_cell(rng, nbits, nrefs, pool):
     return mk_cell(G.rand_bits(rng, nbits), [rand_leaf(rng, pool) for _ in range(nrefs)])
+
+
+# ----------------------------------------------------------------------------- exact-fill headers (solve for the free field sizes)
+
+FILL_FAMILIES = ('I-strict', 'I-relaxed', 'X-relaxed', 'O-relaxed')
+
+
+def _addr_options(relaxed):
+    """[(group, bits, spec)] of the address forms: std, std + anycast depth d; relaxed address classes also none / extern of every length"""
+    out = [('std', 267, ('std', 0))] + [('any', 272 + d, ('std', d)) for d in range(1, 31)]
+    if relaxed:
+        out += [('none', 2, ('none', 0))] + [('ext', 11 + ln, ('ext', ln)) for ln in range(0, 512)]
+    return out
+
+
+def _grams_options():
+    return [('g', 4 + 8 * n, n) for n in range(16)]
+
+
+def _mk_addr(rng, spec):
+    kind, n = spec
+    if kind == 'none':
+        return ['n']
+    if kind == 'ext':
+        return ['e', n, (rng.getrandbits(n) | (1 << (n - 1))) if n else 0]
+    a = ['s', rng.choice([0, -1, rng.randrange(-128, 128)]), rng.randbytes(32).hex()]
+    return a + [n, rng.getrandbits(n)] if n else a
+
+
+def _mk_grams(rng, n):
+    return (rng.getrandbits(8 * n) | (1 << (8 * n - 8))) if n else 0
+
+
+_REACH = {}
+
+
+def solve_sizes(rng, knobs, target, key=None):
+    """knobs: [[(group, bits, value)]]; -> one value per knob whose bits add up to EXACTLY `target`, or None.  Exact (the reachable sums
+    of every suffix of the knob list are computed, cached under `key`), and varied: at every knob the groups, and the options inside
+    a group, are tried in an order drawn from rng."""
+    reach = _REACH.get(key) if key is not None else None
+    if reach is None:
+        cap = 1023
+        reach = [None] * (len(knobs) + 1)
+        reach[len(knobs)] = {0}
+        for i in range(len(knobs) - 1, -1, -1):
+            sizes = {o[1] for o in knobs[i]}
+            reach[i] = {s + t for s in sizes for t in reach[i + 1] if s + t <= cap}
+        if key is not None:
+            _REACH[key] = reach
+    if target < 0 or target not in reach[0]:
+        return None
+    out, need = [], target
+    for i, opts in enumerate(knobs):
+        groups = sorted({o[0] for o in opts})
+        rng.shuffle(groups)
+        pick = None
+        for g in groups:
+            cand = [o for o in opts if o[0] == g and (need - o[1]) in reach[i + 1]]
+            if cand:
+                pick = rng.choice(cand)
+                break
+        out.append(pick[2])
+        need -= pick[1]
+    return out
+
+
+def fill_info(rng, family, extra_size, bits):
+    """a header of the family whose block.tlb encoding has EXACTLY `bits` bits (anycast depths, extern lengths, the byte lengths of the
+    amounts are solved for), or None when the family has no such header"""
+    relaxed = family.endswith('relaxed')
+    ao = _addr_options(relaxed)
+    lt, at = rng.choice([0, (1 << 64) - 1, rng.getrandbits(64)]), rng.choice([0, (1 << 32) - 1, rng.getrandbits(32)])
+    if family[0] == 'I':
+        sol = solve_sizes(rng, [ao, ao, _grams_options(), _grams_options(), _grams_options()], bits - (4 + 1 + 96), key=family)
+        if sol is None:
+            return None
+        info = ('I', rng.random() < .5, rng.random() < .5, rng.random() < .5, _mk_addr(rng, sol[0]), _mk_addr(rng, sol[1]), _mk_grams(rng, sol[2]),
+                rand_extra(rng, extra_size), _mk_grams(rng, sol[3]), _mk_grams(rng, sol[4]), lt, at)
+    elif family[0] == 'X':
+        sol = solve_sizes(rng, [ao, ao, _grams_options()], bits - 2, key=family)
+        if sol is None:
+            return None
+        info = ('X', _mk_addr(rng, sol[0]), _mk_addr(rng, sol[1]), _mk_grams(rng, sol[2]))
+    else:
+        sol = solve_sizes(rng, [ao, ao], bits - (2 + 96), key=family)
+        if sol is None:
+            return None
+        info = ('O', _mk_addr(rng, sol[0]), _mk_addr(rng, sol[1]), lt, at)
+    assert len(enc_info(info)[0]) == bits, (family, bits, len(enc_info(info)[0]))
+    return info
